@@ -50,14 +50,14 @@ class Raise(Exception):
     pass
 
 
-def run_scripted(pp, torch, c, reject, theta0, script, ncalls, gn=False):
+def run_scripted(pp, torch, c, reject, theta0, script, ncalls, gn=False, quad=None):
     class One(torch.nn.Module):
         def __init__(self):
             super().__init__()
             self.t = torch.nn.Parameter(torch.tensor([theta0], dtype=torch.float64))
 
         def forward(self, x):
-            return self.t
+            return self.t if quad is None else self.t * self.t - quad      # residual theta, or theta^2 - c
 
     class Solver(torch.nn.Module):
         def __init__(self):
@@ -134,6 +134,53 @@ def gen_script(rng, theta0, reject, mode, k=None, raise_at=None, n=200):
     return script
 
 
+def gen_script_quad(rng, c, cc, theta0, reject, n=120):
+    """steps on the grid 2^-4 for the residual theta^2 - cc, chosen so that the quality ratio
+    (actual / predicted decrease, exact Fractions) lands in a requested class: V (> high), S (in (low, high]), U (<= low,
+    which includes steps that increase the loss); the walk prefers the patterns U,S,U and S,S that need the middle branch"""
+    F_ = Fraction
+    th = F_(theta0)
+    script, classes = [], []
+    pattern = []
+    rc = 0
+    for j in range(n):
+        if not pattern:
+            pattern = list(rng.choice(['USU', 'VSU', 'SSU', 'UVU', 'USSU', 'V', 'S', 'U', 'UUSUU']))
+        want = pattern.pop(0)
+        r0 = th * th - F_(cc)
+        cands = []
+        for k in range(-96, 97):
+            d = F_(k, 16)
+            if d == 0 or abs(th + d) > 8 or th + d == 0:      # theta = 0 makes J = 0 and the quality ratio x/0
+                continue
+            jd = 2 * th * d
+            pred = -(jd * (2 * r0 + jd))
+            act = r0 * r0 - ((th + d) ** 2 - F_(cc)) ** 2
+            if pred == 0:
+                continue
+            q = act / pred
+            cls = 'V' if q > F_(c['high']) else ('S' if q > F_(c['low']) else 'U')
+            if min(abs(q - F_(c['high'])), abs(q - F_(c['low']))) < F_(1, 1 << 20):
+                continue                 # keep clear of the thresholds (float division rounds the quotient)
+            if cls == want:
+                cands.append((d, act))
+        if cands:
+            d, act = rng.choice(cands)
+        else:
+            d = F_(rng.choice([-1, 1, 2, -3]), 16)
+            if th + d == 0:
+                d = -d
+        script.append(float(d))
+        classes.append(want if cands else '?')
+        new = (th + d) ** 2 - F_(cc)
+        # the accept / reject rule of LevenbergMarquardt.step, so that the walk knows where the parameter really is
+        if r0 * r0 < new * new and rc < reject:
+            rc += 1
+        else:
+            th, rc = th + d, 0
+    return script, ''.join(classes)
+
+
 def cfg_lit(c):
     dm = c.get('damping', (1.0 / c['radius']) if c['kind'] == 2 else 0.0)
     ra = c.get('radius', 0.0)
@@ -189,9 +236,34 @@ def run(ctx):
         th0 = rng.choice([1.0, -2.0, 3.0, 0.5, -0.75, 8.0])
         ra = rng.choice([None, None, rng.randint(0, 40)])
         add(c, reject, th0, gen_script(rng, th0, reject, 'mixed', raise_at=ra, n=600), rng.choice([5, 10, 30]))
+    # nonlinear scripted universe (residual theta^2 - c): the quality ratio takes every value, all three branches of the
+    # Adaptive / TrustRegion updates are reached, in the orders unsuccessful -> successful -> unsuccessful etc.
+    qmetas, qcases = [], []
+    for t in range(ctx.scale(90, 1200)):
+        kind = 1 + t % 2
+        c = gen_cfg(rng, kind)
+        reject = rng.choice([0, 1, 2, 3, 4, 8, 16])
+        cc = rng.choice([-1.0, -2.0, -3.0, 1.0, 2.0, 0.25, -0.5])
+        th0 = rng.choice([1.0, -2.0, 3.0, 0.5, -1.5, 2.5])
+        script, classes = gen_script_quad(rng, c, cc, th0, reject)
+        ncalls = rng.choice([5, 10, 30])
+        obs = run_scripted(pp, torch, c, reject, th0, script, ncalls, quad=cc)
+        ctx.case(('lmq', kind, reject, th0, cc, tuple(script[:40])), nontrivial=True, branch='lm-nonlinear-kind%d' % kind)
+        ctx.count('nonlinear-universe-requested-' + ('has-USU' if 'USU' in classes else 'no-USU'))
+        ctx.traces += 1
+        i = len(qmetas)
+        qmetas.append(dict(kind='lmq', cfg=c, reject=reject, theta0=th0, quad=cc, script=script, ncalls=ncalls, obs=obs))
+        used = max([o[7] for o in obs if o is not None] + [0]) + 2
+        sl = coq_list(('None' if d is None else 'Some ' + qlit(d)) for d in script[:used])
+        ol = coq_list('(%s, %s, %s, %d%%nat, %s, %s, %s, %d%%nat)' % (qlit(o[0]), qlit(o[1]), qlit(o[2]), o[3], qlit(o[4]), qlit(o[5]), qlit(o[6]), o[7]) for o in obs)
+        qcases.append('(%s, (%d%%nat, %d%%nat, %s, %d%%nat, %s, %s, %s))' % (qlit(cc), i, c['kind'], cfg_lit(c), reject, qlit(th0), sl, ol))
+        for o in obs:
+            if o is not None and o[0] != o[8]:
+                ctx.violation('lm-loss-attr', 'optimizer.loss differs from the value returned by step()', qmetas[i])
     ctx.samples.append({k: v for k, v in metas[3].items()})
     hdr = 'From PV Require Import Base.Num Model.LM.\nFrom Coq Require Import List ZArith QArith Bool. Import ListNotations.\n'
     files = [('lm_%03d' % si, hdr + 'Eval vm_compute in lm_bad %s.\n' % coq_list(sh)) for si, sh in enumerate(shard(cases, 60))]
+    files += [('lmq_%03d' % si, hdr + 'Eval vm_compute in lm_bad_quad %s.\n' % coq_list(sh)) for si, sh in enumerate(shard(qcases, 60))]
     # GN
     gmetas, gcases = [], []
     for t in range(ctx.scale(60, 600)):
@@ -216,7 +288,9 @@ def run(ctx):
             ctx.obligation_broken('correspondence-file:' + name, out[-1500:])
             continue
         for i in parse_nat_list(ev[0]):
-            if name.startswith('lm_'):
+            if name.startswith('lmq_'):
+                ctx.mismatch('lm-trace', qmetas[i])
+            elif name.startswith('lm_'):
                 ctx.mismatch('lm-trace', metas[i])
             else:
                 ctx.mismatch('gn-trace', gmetas[i])
@@ -273,9 +347,77 @@ def check_clauses(pp, torch, c, reject, theta0, script, ncalls, gn=False):
     return None
 
 
+def check_strategy_quad(pp, torch, c, reject, theta0, cc, script, ncalls):
+    """the strategy clause of C08 in the nonlinear scripted universe, from the documentation of the strategies: after
+    each trial  rho = (last - loss) / (|f|^2 - |f + J d|^2);  Adaptive: damping *= down if rho > high, unchanged if
+    rho > low, else *= up, then clamped to [min, max];  TrustRegion: radius *= up and down-factor reset if rho > high,
+    radius unchanged and down-factor reset if rho > low, else radius *= down-factor and down-factor *= factor, both
+    clamped, damping = 1 / radius.  Exact Fractions; compared after every step() call with what the implementation holds."""
+    F_ = Fraction
+    obs = run_scripted(pp, torch, c, reject, theta0, script, ncalls, quad=cc)
+    loss = lambda t: (t * t - F_(cc)) ** 2
+    clamp = lambda v: max(F_(c['smin']), min(v, F_(c['smax'])))
+    th = F_(theta0)
+    damp = F_(c['damping']) if c['kind'] == 1 else 1 / F_(c['radius'])
+    rad = F_(c.get('radius', 0))
+    down = F_(c['down'])
+    n = 0
+    hist = ''
+    for k, o in enumerate(obs):
+        if o is None:
+            return None
+        last = loss(th)
+        rc = 0
+        while True:
+            d = script[n] if n < len(script) else None
+            if d is None:
+                n += 1
+                break
+            n += 1
+            d = F_(d)
+            new = loss(th + d)
+            r0 = th * th - F_(cc)
+            jd = 2 * th * d
+            pred = -(jd * (2 * r0 + jd))
+            if pred == 0:
+                return None            # 0/0 or x/0: not part of this oracle
+            rho = (last - new) / pred
+            cls = 'V' if rho > F_(c['high']) else ('S' if rho > F_(c['low']) else 'U')
+            hist += cls
+            if c['kind'] == 1:
+                damp = clamp(damp * (F_(c['down']) if cls == 'V' else (1 if cls == 'S' else F_(c['up']))))
+            else:
+                if cls == 'V':
+                    rad, down = rad * F_(c['up']), F_(c['down'])
+                elif cls == 'S':
+                    down = F_(c['down'])
+                else:
+                    rad, down = rad * down, down * F_(c['factor'])
+                rad, down = clamp(rad), clamp(down)
+                damp = 1 / rad
+            if last < new and rc < reject:
+                rc += 1
+                continue
+            th = th + d
+            break
+        got = (F_(o[4]), F_(o[5]), F_(o[6]))
+        want = (damp, rad if c['kind'] == 2 else got[1], down if c['kind'] == 2 else got[2])
+        if o[7] != n:
+            return None                # the call made a different number of trials: other clauses report that
+        if got != want:
+            name = 'Adaptive' if c['kind'] == 1 else 'TrustRegion'
+            return ('strategy: %s(high=%r, low=%r, up=%r, down=%r%s, min=%r, max=%r) after step() call %d (trial qualities so far %s; V very successful, S successful, U unsuccessful): '
+                    'damping/radius/down-factor are %s, the documented updates give %s') % (
+                name, c['high'], c['low'], c['up'], c['down'], (', factor=%r' % c['factor']) if c['kind'] == 2 else '', c['smin'], c['smax'], k, hist,
+                [float(v) for v in got], [float(v) for v in want])
+    return None
+
+
 def replay(ctx, c):
     pp = import_pypose()
     import torch
+    if c.get('kind') == 'lmq':
+        return check_strategy_quad(pp, torch, c['cfg'], c['reject'], c['theta0'], c['quad'], c['script'], c['ncalls'])
     if c.get('kind') == 'lm':
         return check_clauses(pp, torch, c['cfg'], c['reject'], c['theta0'], c['script'] + [0.0] * 600, c['ncalls'])
     if c.get('kind') == 'gn':
@@ -302,8 +444,29 @@ def real_one(pp, torch, c):
 
         def forward(self, inp):
             z = inp @ self.x
-            return (torch.sin(z) * c['nl'] + z - y).unsqueeze(-1)
+            r = (torch.sin(z) * c['nl'] + z - y).unsqueeze(-1)
+            k = c.get('outs', 1)
+            if k == 1:
+                return r
+            # several residual tensors (a tuple), as a model with several error terms returns them
+            cuts = [round(j * m / k) for j in range(k + 1)]
+            return tuple(r[cuts[j]:cuts[j + 1]] for j in range(k) if cuts[j + 1] > cuts[j])
     net = Net()
+
+    def own_loss():
+        # the robust loss from its definition (sum over residual tensors and rows of rho(|r_i|^2)), kernels written out here
+        with torch.no_grad():
+            out = net(A)
+        outs = out if isinstance(out, tuple) else (out,)
+        tot = 0.0
+        for r in outs:
+            x = r.square().sum(-1)
+            if c['kernel'] == 1:
+                x = torch.where(x <= 0.25, x, 2 * 0.5 * x.sqrt() - 0.25)
+            elif c['kernel'] == 2:
+                x = torch.log1p(x)
+            tot += float(x.sum())
+        return tot
     S = pp.optim.strategy
     strat = [S.Constant(damping=c['damping']), S.Adaptive(damping=c['damping']), S.TrustRegion(radius=1.0 / c['damping'])][c['strategy']]
     kern = [None, pp.optim.kernel.Huber(delta=0.5), pp.optim.kernel.Cauchy()][c['kernel']]
@@ -318,13 +481,13 @@ def real_one(pp, torch, c):
                 raise Raise('scripted failure')
             return osolver(A, b)
     opt.solver = Cnt()
-    prev = float(opt.model.loss(A, None))
+    prev = own_loss()
     for k in range(c['calls']):
         x_before = net.x.detach().clone()
         n0 = nsolve[0]
         with contextlib.redirect_stdout(io.StringIO()):
             r = float(opt.step(A))
-        true = float(opt.model.loss(A, None))
+        true = own_loss()
         tol = 1e-9 * max(1.0, abs(true))
         if abs(r - true) > tol:
             return 'true-loss: real model call %d returned %r, loss at the parameters left behind is %r' % (k, r, true)
@@ -346,7 +509,7 @@ def real_models(ctx, pp, torch):
     for t in range(ctx.scale(30, 300)):
         c = dict(kind='real', seed=rng.randint(0, 10 ** 6), n=rng.randint(1, 5), m=rng.randint(2, 8), ill=rng.choice([0, 0, 4, 8]),
                  scale=rng.choice([1.0, 10.0]), nl=rng.choice([0.0, 1.0, 3.0]), damping=rng.choice([1e-9, 1e-6, 1e-2, 1.0, 1e3]),
-                 strategy=rng.randrange(3), kernel=rng.randrange(3), reject=rng.choice([0, 1, 2, 16]), calls=rng.choice([3, 10, 30]),
+                 strategy=rng.randrange(3), kernel=rng.randrange(3), reject=rng.choice([0, 1, 2, 16]), calls=rng.choice([3, 10, 30]), outs=rng.choice([1, 1, 2, 3]),
                  raise_at=rng.choice([None, None, rng.randint(1, 12)]))
         ctx.case(('real', tuple(sorted(c.items(), key=str))), branch='real-model')
         try:
